@@ -69,3 +69,27 @@ Theorem C04_rollback_resumes_filtering :
     min_filtered st' = if to <=? min_filtered st then to - 1 else min_filtered st.
 Proof. exact rollback_min_filtered. Qed.
 Print Assumptions C04_rollback_resumes_filtering.
+
+(* KNOWN FINDING (see /verif/KNOWN_FINDINGS.jsonl, classes C04-fork-switch-without-rollback-...).
+   The full statement "whenever the stored tip is replaced by a header of a branch that does not contain
+   it, an index rollback is ordered" is FALSE of the faithful model: fork detection only looks at the
+   response's reorg section, and an honest server sends none when the request's start header is on its
+   chain.  That happens when the client itself rebased the start onto a remembered last-N header below the
+   fork point, when the start is this peer's own earlier proof or predates the current stored tip, and on
+   the child fast path (update_prove_state_to_child), which never looks for forks.
+   Witness: the client remembers #7..#9 with tip #10 (hash 110); a heavier proof for #11 of another branch,
+   whose last headers show #10 under hash 210, has no reorg section: the tip is replaced, nothing is rolled back. *)
+Theorem C04_fork_switch_rollback_refuted :
+  exists st new_ps st',
+    LastStateProof.commit st new_ps = Ok (true, st', None) /\
+    st_tip st' <> st_tip st /\
+    (exists h, In (fst (st_tip st), h) (ps_lasts new_ps) /\ h <> snd (st_tip st)) /\
+    (exists n h, In (n, h) (st_lastn st) /\ In (n, h) (ps_lasts new_ps)).
+Proof.
+  exists (mkStore 1000 (10, 110) [(7, 107); (8, 108); (9, 109)] [10]).
+  exists (mkPS (mkVH 211 211 11 1100 10 0 (mkEpoch 1 1 10) 210 10 true true) [] [(8, 108); (9, 209); (10, 210)]).
+  eexists. split; [vm_compute; reflexivity|]. split; [discriminate|]. split.
+  - exists 210. split; [right; right; left; reflexivity | discriminate].
+  - exists 8, 108. split; [right; left; reflexivity | left; reflexivity].
+Qed.
+Print Assumptions C04_fork_switch_rollback_refuted.
